@@ -18,7 +18,7 @@ RULES = {
     'W1': 'handle packing: check << 32 | index when created; >> 32 and & UINT32_MAX when resolved; qb_handle_t is 64 bits',
     'R9': 'the destructor runs once: when the count reaches zero in qb_hdb_handle_put the slot is made non-ACTIVE before the destructor is called (so that a get from inside it is refused, as it is on the destroy path), and a put on a slot whose count is already below 1 is refused',
 }
-FLOORS = {'R1': 20, 'R2': 3, 'R3': 4, 'R4': 2, 'R5': 2, 'R6': 1, 'R7': 4, 'R8': 2, 'R9': 2, 'W1': 9}
+FLOORS = {'R1': 20, 'R2': 3, 'R3': 4, 'R4': 2, 'R5': 3, 'R6': 1, 'R7': 4, 'R8': 2, 'R9': 2, 'W1': 9}
 
 PUBLIC = ['qb_hdb_handle_get', 'qb_hdb_handle_put', 'qb_hdb_handle_destroy', 'qb_hdb_handle_refcount_get']
 
@@ -246,6 +246,29 @@ def r5(ctx):
                   'the handle is handed out only after ref_count = 1 was stored absolutely' if sets else 'EMPTY slots refuse decrements, relative count is sound',
                   'a new object\'s reference count is relative to whatever a free slot was left with (a put on a free slot skews it): '
                   'count != 1 + gets - puts, early destructor')
+    # a slot is taken over only when it is EMPTY (a count of zero is not that: inside a running destructor the count is already
+    # zero and the slot still holds the dying object)
+    loops = c.natural_loops()
+    search = [body for h, body in loops.items() if any(ev.kind == 'CALL' and ev.callee == 'qb_array_index' for b_ in body for ev in c.blocks[b_].events) or
+              any(c.blocks[b_].cond is not None and has_call(c.blocks[b_].cond, 'qb_array_index') for b_ in body)]
+    if not search:
+        raise AnalysisBroken('qb_hdb_handle_create: the search for a free slot was not found')
+    body = min(search, key=len)
+    # what the loop does with a slot it has looked up: the events behind a branch of the loop on the result of that lookup (a block that
+    # leaves the loop with break is not part of the natural loop)
+    def in_search(ev):
+        return any(fb in body and has_call(c.blocks[fb].cond, 'qb_array_index') for (_a, (fb, _t, _l)) in c.guards(ev))
+    takes = [ev for ev in c.events('STORE') if unwrap(ev.lhs).get('k') == 'var' and ev.d['op'] == '=' and cval(unwrap(ev.rhs)) == 1 and in_search(ev)]
+    takes += [ev for ev in c.events('CALL') if refcount_op(ev.e, 'qb_hdb_handle', 'ref_count') and in_search(ev)]
+    if not takes:
+        raise AnalysisBroken('qb_hdb_handle_create: nothing marks a slot as found in the search loop')
+
+    def empty_atom(a, fb):
+        return field_is(a.l, 'state', 'qb_hdb_handle') and a.op == '==' and a.rc == EMPTY
+    bad = [ev for ev in takes if not any(empty_atom(a, None) for (a, _e) in c.guards(ev))]
+    ctx.check('R5', 'create:takes-over-only-empty-slots', not bad, bad[0] if bad else takes[0],
+              'the search takes a slot over only under state == EMPTY',
+              'the search for a free slot takes one over without state == EMPTY having been tested: inside a running destructor the dying object\'s slot has a count of zero and is not free - a create from the destructor gets that slot, and the end of the destructor frees the new object and marks the slot empty')
     sts = [st for st in c.stores(field='state', rec='qb_hdb_handle')]
     ctx.check('R5', 'create:state-active', bool(sts) and all(cval(unwrap(st.rhs)) == ACTIVE for st in sts) and
               all(any(c.ev_dominates(st, ev) for st in sts) for ev in outs), sts[0] if sts else c,
